@@ -49,7 +49,8 @@ Results: `pingpong_race_free` (all round counts, hop chains, schedules, stale-re
 `pingpong_needs_release`, `pingpong_needs_acquire` (`decide`), `reset_hides_older`.
 
 NOT modelled: the asynchronous access path (`next_future`, `unblock_future`: promise/future protocol, C01/C02/C03's chain), two
-callers using one generator at once (excluded by the library: "Generator is busy" assert), destruction of the generator while the body
+callers using one generator at once (excluded by the library: "Generator is busy" assert), the caller role moving to another thread
+between two rounds (one more synchronising hand-over, of the generator object itself), destruction of the generator while the body
 runs, and everything `Clock.lean` does not model.
 -/
 
